@@ -23,6 +23,13 @@ class C08:
         blocks = pg.alloc_blocks(n)
         cases = list(corpus)
         for i in range(n):
+            if i % 6 == 5:
+                # connections that die under open transactions (closed by the client, or by the proxy after undecodable
+                # bytes) while the answers still arrive: the relay must cope with the dead connection
+                f = pf.tcp_history(rng, blocks[i], {"deaths": 0.3})
+                f.to_service(method=b"OPTIONS")
+                cases.append(f.s.case("g%d" % i, {"kind": "dying-connections"}))
+                continue
             f = pf.hostile_history(rng, blocks[i])
             cases.append(f.s.case("g%d" % i, {"kind": "hostile-history"}))
         cov, failures = pc.explore(ctx, "C08", cases, [], nontrivial=lambda c, ni: bool(ni) and bool(ni[-1][0]))
